@@ -29,7 +29,8 @@ EXPLANATION = (
     "iterator is exhausted; (f) FillComputeSeq/FillRequestSeq split their elements into everything up to the first "
     "accumulator (a FillSeq) and a Sequence of everything after it, in order, and compute/request post-process the "
     "accumulator's results with that Sequence; the wrapped element itself may stand only for a call-like attribute, never for run; the "
-    "results of run([value]) are filled in a loop, not taken with next().  Does not decide equality of the drivers' results on concrete chains.")
+    "results of run([value]) are filled in a loop, not taken with next().  Run._call_run applies the callable in its own generator frame "
+    "(not through map/filter, which would let a StopIteration of the callable end the flow silently).  Does not decide equality of the drivers' results on concrete chains.")
 RULES = {
     "C05-a": "TYPESTATE: adapters bind the requested method of the wrapped element, leave no stub, raise only Lena type/value errors",
     "C05-b": "wrapper bodies forward exactly once, in the documented nesting",
@@ -430,7 +431,19 @@ def check_wrappers(ctx):
     # Run._call_run
     fn = ctx.tree.func(AD, "Run._call_run")
     loop = flow_loop(ctx, fn)
-    if ctx.require(loop is not None, "C05-b", fn, "Run._call_run: per-value loop not found"):
+    # the callable is applied inside Run's own generator frame: only there does Python turn a StopIteration escaping from the
+    # callable into RuntimeError (PEP 479).  map()/filter()/itertools apply it in C and let the StopIteration through -- the
+    # consumer (Sequence, Cache writing its file) takes it for the regular end of the flow and the rest of the flow is lost
+    lazy_c = [c for r in A.walk_local(fn) if isinstance(r, ast.Return) and r.value is not None for c in ast.walk(r.value)
+              if isinstance(c, ast.Call) and (res.call_canon(c) or "").split(".")[0] in ("builtins", "itertools")
+              and (res.call_canon(c) or "").rsplit(".", 1)[-1] in ("map", "imap", "starmap", "filter") and any("self._el" in A.src(a) for a in c.args)]
+    if loop is None and not A.is_generator(fn) and lazy_c:
+        ctx.violation("C05-b", lazy_c[0], "Run._call_run hands the callable to `%s` instead of applying it in its own generator: a StopIteration "
+                      "raised by the callable (next() on an exhausted helper iterator) is no longer turned into RuntimeError but ends the "
+                      "flow -- the element silently truncates the flow, which no other driver of the same callable (FillInto.fill_into, "
+                      "Call) does, and a Cache downstream stores the truncated flow as complete" % A.short(lazy_c[0], 40),
+                      construct="call-run-not-generator")
+    elif ctx.require(loop is not None, "C05-b", fn, "Run._call_run: per-value loop not found"):
         var = loop.target.id
         for q in P.loop_body_paths(loop):
             ys = q.yields()
@@ -934,6 +947,7 @@ def check(ctx):
 ADP = "lena/core/adapters.py"
 VARIANTS = [
     M("runfillinto-next-only", "lena/core/adapters.py", "        for result in self._el.run([value]):\n            element.fill(result)", "        results = iter(self._el.run([value]))\n        try:\n            result = next(results)\n        except StopIteration:\n            return\n        element.fill(result)", ["C05-b"]),
+    M("call-run-returns-map", "lena/core/adapters.py", "        for val in flow:\n            yield self._el(val)\n", "        return map(self._el, flow)\n", ["C05-b"]),
     M("run-binds-generator-function", "lena/core/adapters.py", "            elif callable(el):\n                # Call to Run\n                self.run = self._call_run", "            elif callable(el):\n                if inspect.isgeneratorfunction(el):\n                    self.run = el\n                else:\n                    self.run = self._call_run", ["C05-a"]),
     M("fillcompute-stub-left", ADP, "        if callable(fill_method):\n            self.fill = fill_method\n        else:", "        if callable(fill_method):\n            pass\n        else:", ["C05-a"]),
     M("fillcompute-wrong-name", ADP, "        fill_method = getattr(el, fill, None)\n        compute_method = getattr(el, compute, None)", "        fill_method = getattr(el, fill, None)\n        compute_method = getattr(el, fill, None)", ["C05-a"]),
